@@ -386,3 +386,70 @@ func ruleLockReleased(w *World, r *Report, rule string, exceptions map[string]st
 	}
 	return n
 }
+
+// PANIC-SAFE-LOCK: a mutex held across a call into code the framework does not own (a function value: parameter,
+// captured variable, field, interface method of a non-repo type) must be released by a deferred Unlock — an explicit
+// Unlock after the call is skipped when the callee panics, the panic is recovered further out (task executor, tool
+// goroutine) and everybody else blocks on the mutex forever.
+func rulePanicSafeLocks(w *World, r *Report, rule string, pkgs ...string) int {
+	n := 0
+	for _, fn := range w.RepoFuncs(pkgs...) {
+		// explicit (non-deferred) unlocks
+		instrs(fn, func(in ssa.Instruction) {
+			if _, isDefer := in.(*ssa.Defer); isDefer {
+				return
+			}
+			op, k, ok := mutexCallKind(in)
+			if !ok || op != "unlock" {
+				return
+			}
+			// walk backwards from the unlock to the matching lock(s); collect foreign calls on the way
+			var foreign *ssa.Call
+			seen := map[*ssa.BasicBlock]bool{}
+			var walk func(b *ssa.BasicBlock, from int)
+			walk = func(b *ssa.BasicBlock, from int) {
+				for i := from; i >= 0; i-- {
+					x := b.Instrs[i]
+					if _, isDefer := x.(*ssa.Defer); isDefer {
+						continue
+					}
+					if op2, k2, ok2 := mutexCallKind(x); ok2 && k2 == k && op2 == "lock" {
+						return
+					}
+					if c, ok := x.(*ssa.Call); ok && foreign == nil && isForeignCall(w, c) {
+						foreign = c
+					}
+				}
+				for _, p := range b.Preds {
+					if !seen[p] {
+						seen[p] = true
+						walk(p, len(p.Instrs)-1)
+					}
+				}
+			}
+			idx := instrIndex(in)
+			walk(in.Block(), idx-1)
+			n++
+			construct := fmt.Sprintf("explicit Unlock of %s in %s", k, w.fname(origin(fn)))
+			if foreign != nil {
+				r.Fail(rule, construct, in.Pos(), fmt.Sprintf("the mutex is held across the call %s at %s (a function value / foreign method: it may panic) and released by a plain Unlock after it: when the callee panics the lock stays held — the panic is recovered further out and surfaces as an error, but every other user of the mutex (a sibling node touching the state, the next tool call) blocks forever and the run hangs", valText(foreign), w.pos(foreign.Pos())))
+			} else {
+				r.OK(rule, construct, in.Pos(), "only framework-owned, non-panicking bookkeeping between Lock and Unlock")
+			}
+		})
+	}
+	return n
+}
+
+// isForeignCall: the callee is not a statically known function of the module or the standard library: a func value
+// (parameter, free variable, loaded field, result of another call) or an interface method.
+func isForeignCall(w *World, c *ssa.Call) bool {
+	if c.Call.IsInvoke() {
+		return true
+	}
+	switch c.Call.Value.(type) {
+	case *ssa.Function, *ssa.Builtin, *ssa.MakeClosure:
+		return false
+	}
+	return true
+}
